@@ -33,6 +33,7 @@ type Scenario struct {
 	Sched   string   `json:"head_schedule"`
 	Heads   []uint64 `json:"heads"`
 	HistTip uint64   `json:"tip_at_history_sync,omitempty"`
+	K       int      `json:"max_faults"`
 }
 
 func (s *Scenario) String() string {
@@ -143,15 +144,21 @@ func schedules(n, f uint64) map[string][]uint64 {
 
 var schedOrder = []string{"every", "skip3", "repeat", "single"}
 
+// chainSpec: chains of n blocks with every multiset of at most MaxItems log-carrying transactions,
+// each explored with every placement of at most K faults.
+type chainSpec struct {
+	N        uint64 `json:"blocks"`
+	MaxItems int    `json:"max_log_txs"`
+	K        int    `json:"max_faults"`
+}
+
 type bounds struct {
-	chainLens   []uint64
-	allProfiles bool // false: profile = distribution index mod 3
-	follows     []uint64
-	batches     []uint64
-	scheds      []string
-	nodeLens    []uint64
-	nodeScheds  []string
-	k           int
+	chains     []chainSpec
+	follows    []uint64
+	batches    []uint64
+	scheds     []string
+	nodeChains []chainSpec
+	nodeScheds []string
 }
 
 const fromBlock = 2 // block 1 exists (and may carry logs) but was not asked for
@@ -166,29 +173,29 @@ func generate(b bounds) []*Scenario {
 		}
 		return it
 	}
-	for _, n := range b.chainLens {
+	for _, cs := range b.chains {
+		n := cs.N
 		sch := schedules(n, fromBlock)
 		for di, d := range distributions(n) {
-			ps := []int{di % 3}
-			if b.allProfiles {
-				ps = []int{0, 1, 2}
+			if len(d) > cs.MaxItems {
+				continue
 			}
-			if len(d) == 0 {
-				ps = []int{0}
-			}
-			for _, p := range ps {
-				for _, fo := range b.follows {
-					for _, ba := range b.batches {
-						for _, sn := range b.scheds {
-							add(&Scenario{Mode: "stream", N: n, From: fromBlock, Follow: fo, Batch: ba, Items: items(d, p), Sched: sn, Heads: sch[sn]})
-						}
+			// the kind profile rotates with the distribution index
+			for _, fo := range b.follows {
+				for _, ba := range b.batches {
+					for _, sn := range b.scheds {
+						add(&Scenario{Mode: "stream", N: n, From: fromBlock, Follow: fo, Batch: ba, Items: items(d, di%3), Sched: sn, Heads: sch[sn], K: cs.K})
 					}
 				}
 			}
 		}
 	}
-	for _, n := range b.nodeLens {
+	for _, cs := range b.nodeChains {
+		n := cs.N
 		for di, d := range distributions(n) {
+			if len(d) > cs.MaxItems {
+				continue
+			}
 			p := di % 3
 			for _, fo := range b.follows {
 				for _, ba := range b.batches {
@@ -201,7 +208,7 @@ func generate(b bounds) []*Scenario {
 									hs = append(hs, h)
 								}
 							}
-							add(&Scenario{Mode: "node", N: n, From: fromBlock, Follow: fo, Batch: ba, Items: items(d, p), Sched: sn, Heads: hs, HistTip: ht})
+							add(&Scenario{Mode: "node", N: n, From: fromBlock, Follow: fo, Batch: ba, Items: items(d, p), Sched: sn, Heads: hs, HistTip: ht, K: cs.K})
 						}
 					}
 				}
